@@ -7,11 +7,14 @@ Model: lean/MlModel/Model/PipeAgg.lean (+ PipeAggInst.lean), driver `pipeagg`; t
 
 Case format (JSON):
   {"aggs":   [{"kind": <AGGS key>, "out": [names], "in": [cols] | null (SELF), "kw": bool, "noslice": bool}],
-   "slicers":[{"name":[..], "keys":[..], "replace": null|int, "kind": "default"|"within"|"fn"|"mask",
+   "slicers":[{"name":[..], "keys":[..], "replace": null (filter) | int | {"v": int|float|str|bool|null (None)},
+               "kind": "default"|"within"|"fn"|"mask",
                "within": [[..],..], "fn": <SLICE_FNS key>, "layout": [template..], "mwithin": [..]|null,
                "twice": bool, "bare": bool}],
-   "batches":[{col: value}],  value = int | nested lists | {"x": [...], ..} (a dict-valued column)
-   "np": [cols given to the pipeline as numpy arrays (dict-valued columns: every leaf)],
+   "batches":[{col: value}],  value = scalar | nested lists | {"x": [...], ..} (a dict-valued column);
+                               a scalar is an int, a float, a str, a bool or null (None)
+   "np": [cols given to the pipeline as numpy arrays (dict-valued columns: every leaf); the dtype is numpy's own choice
+          for the content (int64 / float64 / bool / <U..), object when the column holds a None or mixes str and numbers],
    "call": bool (one batch through `make()(batch)`),  "malform": tag?}
 A mask template is "t" | "f" | "m<i>" (nested `== key` on feature column i, Python lists of bools) |
 "np<i>" (the same as a 1-D numpy bool array) | {"dict": [[key, template], ..]}.
@@ -36,14 +39,23 @@ TRUSTED = [
     'modelled, not verified: numpy boolean indexing / np.where / np.asarray (list semantics on rectangular data; ragged data '
     'under a numpy mask = ValueError), zip(strict), dict insertion order, hashing of slice values (ints in the sample)',
     'numpy broadcasting of length-1 masks/columns against longer operands is outside the model (never generated)',
+    'numpy dtype handling is modelled, not verified: dtype inference of np.asarray, promotion of np.where(mask, column, value) (numeric promotion '
+    'is value-preserving and not represented; promotion to a string dtype converts non-strings; str column with int/float value raises), observed on numpy 2.x; '
+    'the oracle replaces at the Python level (plain lists, no numpy); typed columns are observed through bag aggregates that count every scalar up to Python ==',
 ]
 ASSUMPTIONS = ['user slice functions / mask functions are pure (the runner calls them once per aggregate)',
-               'feature values are ints; aggregate inputs are ints in nested lists / numpy arrays / one-level dicts']
+               'feature values are ints; aggregate inputs are ints in nested lists / numpy arrays / one-level dicts for the numeric '
+               'aggregates, and columns of ints / floats / bools / strings / mixed-with-None objects (list or ndarray, 1-D or 2-D, or '
+               'leaves of a dict) for the typed bag aggregates; replacement values are ints, short decimal floats, strings, bools, None',
+               'an object ndarray always holds a None and a list never mixes strings and numbers without a None (numpy would infer '
+               'another dtype than the model does); NaN / inf replacements are not generated']
 RULE = ('corpus (test-suite scenarios, finding witnesses), then a systematic sweep slicer kind x aggregate kind x batch pattern '
         '(0..3 batches, slices first seen late), then random pipelines with 1-3 stacked aggregates, 0-3 slicers of the five kinds '
         '(default, cross, within_values, fan-out slice_fn, slice_mask_fn with filter/replace, one mask for all inputs / one per input, '
         'list / numpy / dict masks), streams of 0-6 batches of 0-4 rows, ~10% malformed (missing keys, misaligned features, duplicate '
-        'names, arity mismatches, unhashable features); non-trivial = at least one slicer and at least two distinct slice keys '
+        'names, arity mismatches, unhashable features); a typed world: the dtype-pair matrix (int / float / bool / str / object / 2-D / dict-leaf '
+        'columns x list | ndarray x row slicer | numpy mask | list mask x int | float | str | bool | None replacement value, every combination '
+        'REQUIRED in every run) and random typed pipelines, observed through typed bag aggregates; non-trivial = at least one slicer and at least two distinct slice keys '
         'reported or an error kind predicted; distinct = distinct canonical case JSON')
 
 
@@ -60,6 +72,76 @@ def _leaves(x):
   if isinstance(x, dict) or x is None:
     return []
   return [x]
+
+
+FILTER = object()      # "no replacement value": filter semantics
+
+
+def repl_of(sl):
+  """the slicer's replace_mask_false_with (FILTER when absent); typed values travel as {"v": value}"""
+  r = sl.get('replace')
+  if r is None:
+    return FILTER
+  return r['v'] if isinstance(r, dict) else r
+
+
+def _leaves_all(x):
+  """every scalar under an array-like, None included (dicts contribute nothing)"""
+  if isinstance(x, np.ndarray):
+    x = x.tolist()
+  if isinstance(x, (list, tuple)):
+    out = []
+    for e in x:
+      out += _leaves_all(e)
+    return out
+  if isinstance(x, dict):
+    return []
+  return [x]
+
+
+def bag_key(x):
+  """canonical name of a scalar up to Python == (True == 1 == 1.0); mirrored by the driver's scalarJson"""
+  import fractions
+  if x is None:
+    return 'none'
+  if isinstance(x, (str, np.str_)):
+    return 's:' + str(x)
+  if isinstance(x, (float, np.floating)) and math.isnan(x):
+    return 'nan'
+  if isinstance(x, (bool, np.bool_)):
+    x = int(x)
+  if isinstance(x, np.generic):
+    x = x.item()
+  f = fractions.Fraction(x)
+  return f'n:{f.numerator}/{f.denominator}'
+
+
+def kind_of(x):
+  if x is None:
+    return 'none'
+  if isinstance(x, (bool, np.bool_)):
+    return 'bool'
+  if isinstance(x, (str, np.str_)):
+    return 'str'
+  if isinstance(x, (float, np.floating)):
+    return 'float'
+  return 'int'
+
+
+def col_kind(v):
+  """kind of a column by its scalars: int | float | bool | str | obj (None inside, or str mixed with numbers) | empty"""
+  ks = {kind_of(x) for x in _leaves_all(v)}
+  if not ks:
+    return 'empty'
+  if 'none' in ks or ('str' in ks and len(ks) > 1):
+    return 'obj'
+  if ks == {'str'}:
+    return 'str'
+  if 'float' in ks:
+    return 'float'
+  if 'int' in ks:
+    return 'int'
+  return 'bool'
 
 
 SLICE_FNS = {      # mirrored by Driver/PipeAgg.lean `sliceFn`
@@ -212,11 +294,46 @@ def _agg_classes():
   return SumCount, Total, DictAvg
 
 
+def _bag_classes():
+  from ml_metrics._src.aggregates import base
+
+  class TypedBag(base.AggregateFn):
+    """plain AggregateFn: how often every scalar (of whatever type, None included) occurs under the input; '#' = their number"""
+
+    def create_state(self):
+      return {'#': 0}
+
+    def update_state(self, state, x):
+      if not isinstance(x, (list, tuple, np.ndarray)):
+        raise TypeError('not an array')
+      state = dict(state)
+      for v in _leaves_all(x):
+        k = bag_key(v)
+        state[k] = state.get(k, 0) + 1
+        state['#'] += 1
+      return state
+
+    def get_result(self, state):
+      return dict(state)
+
+  class DictBag(TypedBag):
+    """the same over one field of a dict input"""
+
+    def __init__(self, field):
+      self.field = field
+
+    def update_state(self, state, d):
+      return super().update_state(state, d[self.field])
+
+  return TypedBag, DictBag
+
+
 # kind -> (view of the model's Stat, number of inputs, number of outputs, decoder)
 AGGS = {
     'meanvar': ('meanvar', 1, 1), 'mean': ('mean', 1, 1), 'counter': ('counter', 1, 1),
     'sumcount': ('sumcount', 1, 2), 'total': ('total', 1, 1), 'dot': ('dot', 2, 2), 'pr': ('pr', 2, 2),
     'dictavg': ('sumcount', 1, 2),
+    'bag': ('bag', 1, 1), 'dictbag': ('bag', 1, 1),
 }
 
 
@@ -240,6 +357,10 @@ def make_agg(a):
     return base.as_agg_fn(_PR)
   if k == 'dictavg':
     return DictAvg(a['field'])
+  if k == 'bag':
+    return _bag_classes()[0]()
+  if k == 'dictbag':
+    return _bag_classes()[1](a['field'])
   raise ValueError(k)
 
 
@@ -258,7 +379,17 @@ def to_py(v, as_np):
   if isinstance(v, dict):
     return {k: to_py(x, as_np) for k, x in v.items()}
   if as_np and isinstance(v, list):
-    return np.array(v, dtype=np.int64) if v or True else np.array([], dtype=np.int64)
+    k = col_kind(v)
+    if k in ('int', 'empty'):
+      return np.array(v, dtype=np.int64)
+    if k == 'obj':                     # a None inside, or strings mixed with numbers: numpy needs dtype=object
+      out = np.empty(len(v), dtype=object) if not (v and isinstance(v[0], list)) else None
+      if out is None:
+        return np.array(v, dtype=object)
+      for i, e in enumerate(v):
+        out[i] = e
+      return out
+    return np.array(v)                 # float64 / bool / <U..
   return v
 
 
@@ -283,8 +414,8 @@ def build_transform(case, slicers=None):
     keys = sl['keys'][0] if len(sl['keys']) == 1 else tuple(sl['keys'])
     name = sl['name'][0] if len(sl['name']) == 1 else tuple(sl['name'])
     kw = {}
-    if sl.get('replace') is not None:
-      kw['replace_mask_false_with'] = sl['replace']
+    if repl_of(sl) is not FILTER:
+      kw['replace_mask_false_with'] = repl_of(sl)
     if sl['kind'] == 'default':
       t = t.add_slice(keys, **kw) if sl['name'] == sl['keys'] else t.add_slice(keys, slice_name=name, **kw)
     elif sl['kind'] == 'within':
@@ -304,6 +435,8 @@ def canon_value(v):
     return {'nums': [canon(float(x)) for x in v]}
   if isinstance(v, rolling_stats.MeanAndVariance):
     return {'nums': [canon(float(np.asarray(v.count))), canon(float(np.asarray(v.mean))), canon(float(np.asarray(v.var)))]}
+  if isinstance(v, dict) and '#' in v:      # a typed bag
+    return {'bag': sorted([str(k), int(c)] for k, c in v.items())}
   if isinstance(v, dict):       # a Counter result comes back as a plain dict (rebuilt leaf by leaf by agg_result)
     return {'hist': sorted([int(k), int(c)] for k, c in v.items())}
   if isinstance(v, (list, np.ndarray)):
@@ -361,11 +494,12 @@ def model_requests(case):
   aggs = []
   for a in case['aggs']:
     view = AGGS[a['kind']][0]
-    dec = {'field': a['field']} if a['kind'] == 'dictavg' else 'cols'
+    dec = {'field': a['field']} if a['kind'] in ('dictavg', 'dictbag') else 'cols'
     aggs.append(dict(out=a['out'], dec=dec, view=view, noslice=bool(a.get('noslice')), **{'in': a['in']}))
   slicers = []
   for sl in case['slicers']:
-    s = dict(name=sl['name'], keys=sl['keys'], kind=sl['kind'], replace=sl.get('replace'))
+    r = repl_of(sl)
+    s = dict(name=sl['name'], keys=sl['keys'], kind=sl['kind'], replace=None if r is FILTER else {'none': True} if r is None else r)
     for k in ('within', 'fn', 'layout', 'mwithin', 'twice'):
       if k in sl:
         s[k] = sl[k]
@@ -390,6 +524,21 @@ def _model_value(v):
     return {'nums': [x for e in v['tup'] for x in _model_value(e)['nums']]}
   if 'hist' in v:
     return {'hist': sorted([int(a), int(b)] for a, b in v['hist'])}
+  if 'bag' in v:
+    import fractions
+
+    def key(k):
+      if k == 'none':
+        return 'none'
+      if 's' in k:
+        return 's:' + k['s']
+      f = fractions.Fraction(k['n'][0], k['n'][1])
+      return f'n:{f.numerator}/{f.denominator}'
+    acc = {}
+    for k, c in v['bag']:            # canonical scalars are distinct; merged defensively
+      acc[key(k)] = acc.get(key(k), 0) + int(c)
+    acc['#'] = sum(acc.values())
+    return {'bag': sorted([k, c] for k, c in acc.items())}
   return {'nums': [(n / d if d else 'nan') for n, d in v['nums']]}
 
 
@@ -476,7 +625,7 @@ def o_mask(item, mask, repl, rowlevel_np):
       if m is True:
         out[k] = v
       elif m is False:
-        if repl is not None:
+        if repl is not FILTER:
           out[k] = repl
       else:
         out[k] = o_mask(v, m, repl, rowlevel_np)
@@ -487,7 +636,7 @@ def o_mask(item, mask, repl, rowlevel_np):
     if m is True:
       out.append(e)
     elif m is False:
-      if repl is not None:
+      if repl is not FILTER:
         out.append(fill(e, repl) if rowlevel_np else repl)
     else:
       out.append(o_mask(e, m, repl, rowlevel_np))
@@ -532,10 +681,9 @@ def expected(case):
       ins = agg_inputs(a, b)
       for i in range(nrows(b)):
         allrows.append((bi, i, [row_of(v, i) for v in ins]))
-    tmpl = agg_inputs(a, batches[0]) if batches else [([] if a['kind'] != 'dictavg' else None)] * n_in
 
     def cols_of(rows):
-      if a['kind'] == 'dictavg':
+      if a['kind'] in ('dictavg', 'dictbag'):
         fields = None
         for b in batches:
           fields = agg_inputs(a, b)[0]
@@ -549,7 +697,7 @@ def expected(case):
     if a.get('noslice'):
       continue
     for sl in case['slicers']:
-      repl = sl.get('replace')
+      repl = repl_of(sl)
       if sl['kind'] != 'mask':
         # ----- row-level slices: membership row by row
         members = collections.OrderedDict()      # slice value -> set of (bi, i)
@@ -566,7 +714,7 @@ def expected(case):
               members.setdefault(v, set()).add((bi, i))
         for v, mem in members.items():
           sj = {'features': sl['name'], 'values': list(v)}
-          if repl is None:
+          if repl is FILTER:
             rows = [r for bi, i, r in allrows if (bi, i) in mem]
           else:        # replace semantics: every row of the stream, non-members replaced
             rows = [r if (bi, i) in mem else [fill(e, repl) for e in r] for bi, i, r in allrows]
@@ -611,7 +759,8 @@ def oracle(case, obs):
   if not well_formed(case):
     return None
   if obs['err'] is not None:
-    return f"well-formed pipeline raised {obs['err']}"
+    tag = ' [str-promote]' if any(_str_promote(case, a, sl) for a in case['aggs'] for sl in case['slicers']) else ''
+    return f"well-formed pipeline raised {obs['err']}{tag}"
   try:
     exp = expected(case)
   except AssertionError as e:
@@ -629,11 +778,15 @@ def oracle(case, obs):
   for k in sorted(exp):
     if not deep_close(got[k], exp[k]):
       kind = 'unsliced result' if k[1] == 'null' else 'slice'
-      tag = ' [replace-absent]' if k[1] != 'null' and _replace_absent(case, k[1]) else ''
+      tag = ''
+      if k[1] != 'null' and _str_promote_key(case, k[0], k[1]):
+        tag = ' [str-promote]'
+      elif k[1] != 'null' and _replace_absent(case, k[1]):
+        tag = ' [replace-absent]'
       fails.append(f'{kind} {k[0]} {k[1]}: pipeline reports {got[k]}, brute-force group-by gives {exp[k]}{tag}')
-  # a deviation that is not the known replace-mode one is reported first
+  # a deviation that is not one of the known replace-mode ones is reported first
   for f in fails:
-    if not f.endswith('[replace-absent]'):
+    if not f.endswith(('[replace-absent]', '[str-promote]')):
       return f
   # slicer independence (metamorphic, on the real code)
   if 'no_slicers' in obs:
@@ -669,6 +822,44 @@ def _replace_absent(case, slice_json):
       per = _slice_keys_per_batch(case, sl)
       return any(tuple(d['values']) not in ks for ks in per)
   return False
+
+
+def _numpy_sees(case, sl, col):
+  """does the column reach numpy together with the replacement value: a numpy mask (np.where), or an ndarray column
+  (np.asarray of the element-wise result)"""
+  np_mask = sl['kind'] != 'mask' or any(isinstance(t, str) and t.startswith('np') for t in sl.get('layout', []))
+  return np_mask or col in case.get('np', ())
+
+
+def _str_promote(case, a, sl):
+  """input class of finding F-C02-replace-str-promote: numpy builds ONE array from strings and non-strings:
+  (a) a replace-mode slicer whose value and an aggregate input column are a string and a non-string (either way round),
+      the column is not an object column, and numpy sees both;
+  (b) an object ndarray column under a LIST mask (filter or replace): np.asarray(result) re-infers the dtype from the kept
+      elements (+ the replacement values) and no longer sees the None that made the column an object array"""
+  if a.get('noslice') or a['in'] is None:
+    return False
+  r = repl_of(sl)
+  list_mask = sl['kind'] == 'mask' and any(isinstance(t, str) and t.startswith('m') for t in sl.get('layout', []))
+  for col in a['in']:
+    for b in case['batches']:
+      v = b.get(col)
+      for leaf in (list(v.values()) if isinstance(v, dict) else [v]):      # a dict input: every leaf is masked
+        k = col_kind(leaf)
+        if k == 'obj' and list_mask and col in case.get('np', ()):
+          return True
+        if k in ('obj', 'empty') or r is FILTER or r is None or not _numpy_sees(case, sl, col):
+          continue
+        if (kind_of(r) == 'str') != (k == 'str'):
+          return True
+  return False
+
+
+def _str_promote_key(case, metric, slice_json):
+  import json
+  d = json.loads(slice_json)
+  return any(_str_promote(case, a, sl) for a in case['aggs'] if metric in a['out']
+             for sl in case['slicers'] if sl['name'] == d['features'])
 
 
 def _slice_features(sj):
@@ -725,6 +916,8 @@ def finding(case, what):
   """known-finding classes, by predicate over the failing case"""
   if has_ragged_rowslice(case) and 'raised ValueError' in what:
     return 'F-C02-ragged-rows'
+  if what.endswith('[str-promote]'):
+    return 'F-C02-replace-str-promote'
   if what.endswith('[replace-absent]'):
     return 'F-C02-replace-absent'
   return None
@@ -957,6 +1150,152 @@ def gen_fanout_dups(rng):
     yield dict(aggs=[mk_agg(rng, 'sumcount', ['x'], 0)], slicers=[sl], batches=batches, np=['d'])
 
 
+# ---- typed world: columns and replacement values of different dtypes (int / float / bool / str / object; 1-D, 2-D, dict leaves)
+
+T_COLS = {      # column -> (kind label, generator of one scalar, 2-D?)
+    'ti': ('int', lambda rng: rng.randrange(-2, 6), False),
+    'tf': ('float', lambda rng: rng.choice([0.5, 1.5, -0.5, 2.25, 3.5, 0.25]), False),
+    'tb': ('bool', lambda rng: rng.random() < 0.5, False),
+    'ts': ('str', lambda rng: rng.choice(['a', 'b', 'c', 'ab']), False),
+    'to': ('obj', lambda rng: rng.choice([1, 2, 'a', 'b', 0.5, True, None]), False),
+    'ti2': ('int2d', lambda rng: rng.randrange(0, 5), True),
+    'tf2': ('float2d', lambda rng: rng.choice([0.5, 1.5, 2.25]), True),
+    'tb2': ('bool2d', lambda rng: rng.random() < 0.5, True),
+    'ts2': ('str2d', lambda rng: rng.choice(['a', 'b', 'c']), True),
+}
+# dict-valued columns (a mask / replacement value is applied to EVERY leaf): 'td' has numeric leaves, 'tds' string leaves
+T_DICT = {'td.x': ('dict-int', T_COLS['ti'][1]), 'td.z': ('dict-float', T_COLS['tf'][1]), 'td.w': ('dict-bool', T_COLS['tb'][1]),
+          'tds.y': ('dict-str', T_COLS['ts'][1]), 'tds.u': ('dict-str', T_COLS['ts'][1])}
+T_REPLS = [('int', 0), ('int', 7), ('float', {'v': 0.5}), ('float', {'v': 2.25}), ('str', {'v': 'pad'}), ('str', {'v': 'z'}),
+           ('bool', {'v': True}), ('bool', {'v': False}), ('none', {'v': None})]
+
+
+def gen_typed_batch(rng, n, base):
+  b = {'a': [base + rng.randrange(0, 2) for _ in range(n)], 'b': _flat(rng, n, 0, 3)}
+  if n >= 2:                                # at least two slices per batch: some row is replaced in every slice
+    i, j = rng.sample(range(n), 2)
+    b['a'][i], b['a'][j] = base, base + 1
+    b['b'][j] = (b['b'][i] + 1) % 3
+  for c, (_, g, two_d) in T_COLS.items():
+    b[c] = [[g(rng), g(rng)] for _ in range(n)] if two_d else [g(rng) for _ in range(n)]
+  if n:
+    b['to'][rng.randrange(n)] = None        # an object column: numpy infers `object` only with a None inside
+  for f, (_, g) in T_DICT.items():
+    b.setdefault(f.split('.')[0], {})[f.split('.')[1]] = [g(rng) for _ in range(n)]
+  return b
+
+
+def gen_typed_stream(rng, sizes=None):
+  sizes = sizes if sizes is not None else [rng.choice([0, 1, 2, 3, 3, 4]) for _ in range(rng.randrange(1, 5))]
+  base, out = 0, []
+  for n in sizes:
+    if rng.random() < 0.5:
+      base += rng.randrange(0, 2)
+    out.append(gen_typed_batch(rng, n, base))
+  return out
+
+
+def typed_agg(col, idx):
+  if col in T_DICT:
+    return dict(kind='dictbag', out=[f'o{idx}'], noslice=False, field=col.split('.')[1], **{'in': [col.split('.')[0]]})
+  return dict(kind='bag', out=[f'o{idx}'], noslice=False, **{'in': [col]})
+
+
+def typed_slicer(rng, path, repl, key=None):
+  key = key or rng.choice(['a', 'b'])
+  if path == 'row':
+    which = rng.choice(['default', 'default', 'within', 'fn'])
+    if which == 'default':
+      sl = dict(kind='default', keys=[key], name=[key])
+    elif which == 'within':
+      sl = dict(kind='within', keys=[key], name=[key], within=[sorted(rng.sample(range(0, 4), rng.randrange(2, 4)))])
+    else:
+      f = rng.choice(['parity', 'small', 'self_and_neg'])
+      sl = dict(kind='fn', fn=f, keys=[key], name=[f + '_' + key])
+  else:
+    sl = dict(kind='mask', keys=[key], name=['mk_' + key], layout=['np0'] if path == 'npmask' else ['m0'])
+    if rng.random() < 0.2:
+      sl['bare'] = True
+  sl['replace'] = repl
+  return sl
+
+
+def typed_matrix():
+  """(column, container, mask path, replacement kind) combinations every run must exercise"""
+  out = []
+  cols = list(T_COLS) + list(T_DICT)
+  for col in cols:
+    two_d = col in T_COLS and T_COLS[col][2]
+    for container in (('np',) if col in T_DICT else ('list', 'np')):
+      for path in ('row', 'npmask', 'listmask'):
+        if path == 'listmask' and two_d and container == 'np':
+          continue        # a list mask puts one scalar in place of a 2-D ndarray row: ragged, np.asarray raises
+        for rk in ('int', 'float', 'str', 'bool', 'none'):
+          out.append((col, container, path, rk))
+  return out
+
+
+def typed_label(col):
+  return T_DICT[col][0] if col in T_DICT else T_COLS[col][0]
+
+
+def label_of(case, a):
+  """dtype label of a bag aggregate's input, read off the data (first non-empty batch)"""
+  for b in case['batches']:
+    v = b.get(a['in'][0])
+    if isinstance(v, dict):
+      v = v.get(a.get('field'))
+    if v:
+      k = col_kind(v)
+      return ('dict-' if a['kind'] == 'dictbag' else '') + k + ('2d' if isinstance(v[0], list) else '')
+  return 'empty'
+
+
+def gen_typed_matrix(rng):
+  for col, container, path, rk in typed_matrix():
+    repl = rng.choice([r for k, r in T_REPLS if k == rk])
+    sizes = rng.choice([[3], [2, 3], [3, 0, 2], [4, 2]])
+    case = dict(aggs=[typed_agg(col, 0)], slicers=[typed_slicer(rng, path, repl, key='a')],
+                batches=gen_typed_stream(rng, sizes), np=['td', 'tds'] + ([col] if container == 'np' and col not in T_DICT else []))
+    if rng.random() < 0.3:
+      case['np'].append('a')
+    yield case
+
+
+def gen_typed_random(rng):
+  cols = list(T_COLS) + list(T_DICT)
+  picked = [rng.choice(cols) for _ in range(rng.choice([1, 1, 2, 3]))]
+  aggs = [typed_agg(c, i) for i, c in enumerate(picked)]
+  one_d = all(not (c in T_COLS and T_COLS[c][2]) for c in picked)
+  slicers = []
+  for _ in range(rng.choice([1, 1, 2])):
+    repl = rng.choice([None, None] + [r for _, r in T_REPLS])
+    path = rng.choice(['row', 'row', 'npmask'] + (['listmask'] if one_d or repl is None else []))
+    slicers.append(typed_slicer(rng, path, repl))
+  nps = ['td', 'tds'] + [c for c in list(T_COLS) + ['a', 'b'] if rng.random() < 0.5]
+  if any(sl['kind'] == 'mask' and sl['layout'] == ['m0'] for sl in slicers) and not one_d:
+    nps = [c for c in nps if not (c in T_COLS and T_COLS[c][2])]      # 2-D columns stay lists under a list mask
+  return dict(aggs=aggs, slicers=dedup_names(slicers), batches=gen_typed_stream(rng), np=nps)
+
+
+def typed_features(case):
+  f = set()
+  for a in case['aggs']:
+    if a['kind'] not in ('bag', 'dictbag'):
+      continue
+    col = a['in'][0] + '.' + a['field'] if a['kind'] == 'dictbag' else a['in'][0]
+    container = 'np' if (a['kind'] == 'dictbag' or col in case.get('np', ())) else 'list'
+    for sl in case['slicers']:
+      r = repl_of(sl)
+      if r is FILTER:
+        continue
+      path = 'row' if sl['kind'] != 'mask' else 'npmask' if sl.get('layout') == ['np0'] else 'listmask'
+      f.add(f'typed:{label_of(case, a)}/{container}/{path}x{kind_of(r)}')
+      if _str_promote(case, a, sl):
+        f.add('typed:str-promote-class')
+  return f
+
+
 def gen_malformed(rng):
   case = gen_random(rng)
   while not case['batches'] or not any(nrows(b) >= 2 for b in case['batches']):
@@ -1066,6 +1405,7 @@ def features_of(case):
       if sl.get('twice'):
         f.add('mask:yielded-twice')
     f.add('mode:replace' if sl.get('replace') is not None else 'mode:filter')
+  f |= typed_features(case)
   if case['slicers'] and len(case['batches']) >= 2:
     for sl in case['slicers']:
       if sl['kind'] != 'mask':
@@ -1111,7 +1451,8 @@ REQUIRED = ['aggs:1', 'aggs:2', 'aggs:3', 'slicers:0', 'slicers:1', 'slicers:2',
             'fanout:row-emits-nothing', 'fanout:one-distinct-value', 'fanout:one-value,emissions==rows,some-row-empty', 'slicer:fn:small', 'slicer:mask:one', 'slicer:mask:per-input', 'slicer:mask:none',
             'mask:np', 'mask:list', 'mask:t', 'mask:dict', 'mode:replace', 'mode:filter', 'slice-first-seen-late', 'empty-stream', 'empty-batch',
             'entry:__call__', 'malformed:missing_input', 'malformed:dup_out', 'malformed:dup_slice', 'malformed:too_many_out',
-            'malformed:unhashable', 'malformed:missing_feature']
+            'malformed:unhashable', 'malformed:missing_feature', 'agg:bag', 'agg:dictbag', 'typed:str-promote-class']
+REQUIRED += sorted({f'typed:{typed_label(c)}/{k}/{p}x{r}' for c, k, p, r in typed_matrix()})      # the dtype-pair matrix
 
 
 def gen_cases(ctx):
@@ -1125,7 +1466,9 @@ def gen_cases(ctx):
   yield from counted(ctx.corpus())
   yield from counted(gen_systematic(rng))
   yield from counted(gen_fanout_dups(rng))
+  yield from counted(gen_typed_matrix(rng))
   n = 1200 if ctx.quick else 30000
+  yield from counted(gen_typed_random(rng) for _ in range(n // 3))
   yield from counted(gen_random(rng) for _ in range(n))
   yield from counted(gen_malformed(rng) for _ in range(n // 9))
 
